@@ -58,21 +58,14 @@ func (e *Engine) envFor(st *State, fr *Frame, old *Snapshot) *Env {
 	return env
 }
 
+// bindLets registers the `let` abbreviations of a contract: they are macros, expanded where used (so that
+// old(x) of a let evaluates the let's body in the pre-state).
 func (e *Engine) bindLets(env *Env, fc *FuncContract) {
-	for _, l := range fc.Lets {
-		l := l
-		func() {
-			defer func() {
-				if r := recover(); r != nil {
-					if _, ok := r.(contractErr); ok {
-						return // let not evaluable in this state (e.g. mentions result before return)
-					}
-					panic(r)
-				}
-			}()
-			env.clause = &l.C
-			env.vars[l.Name] = env.eval(l.C.Expr)
-		}()
+	if env.lets == nil {
+		env.lets = map[string]*Clause{}
+	}
+	for i := range fc.Lets {
+		env.lets[fc.Lets[i].Name] = &fc.Lets[i].C
 	}
 }
 
@@ -214,6 +207,20 @@ func hasFreshAfter(t string, mark int) bool {
 			if j > i+1 && n > mark {
 				return true
 			}
+		}
+	}
+	return false
+}
+
+func mentionsFresh(fc *FuncContract) bool {
+	for _, c := range fc.Ensures {
+		if strings.Contains(c.Text, "fresh(") {
+			return true
+		}
+	}
+	for _, c := range fc.TrustedEnsures {
+		if strings.Contains(c.Text, "fresh(") {
+			return true
 		}
 	}
 	return false
@@ -438,7 +445,7 @@ func (e *Engine) doCall(st *State, call *ssa.CallCommon, fnv Val, args []Val, de
 				for i := range fullArgs {
 					env.vars[fmt.Sprintf("arg%d", i)] = fullArgs[i]
 				}
-				e.oblige(st, "atcall("+name+")", instr.Pos(), ac.C.Text, e.evalBool(env, ac.C))
+				e.oblige(st, "atcall("+name+")", instr.Pos(), tagOr(ac.C), e.evalBool(env, ac.C))
 			}
 		}
 	}
@@ -637,7 +644,9 @@ func (e *Engine) applyContract(st *State, fc *FuncContract, callee *ssa.Function
 			locs = append(locs, e.evalLoc(env, a.Expr)...)
 		}
 	}
-	e.havocAlive(st)
+	if !(fc.NoAlloc || (fc.Pure && !mentionsFresh(fc))) {
+		e.havocAlive(st)
+	}
 	if !fc.HasAssigns || fc.AssignsEverything {
 		if !fc.Pure {
 			e.havocAllHeap(st)
@@ -688,7 +697,6 @@ func (e *Engine) unknownCall(st *State, callee *ssa.Function, key, name string, 
 	} else {
 		first = true // dynamic function value
 	}
-	e.havocAlive(st)
 	pkgPath := ""
 	if callee != nil {
 		f := callee
@@ -703,10 +711,17 @@ func (e *Engine) unknownCall(st *State, callee *ssa.Function, key, name string, 
 	} else if call.IsInvoke() && call.Method.Pkg() != nil {
 		pkgPath = shortPkg(call.Method.Pkg().Path())
 	}
+	for _, pre := range e.cs.PurePrefixes {
+		if strings.HasPrefix(key, pre) {
+			st.note("call assumed effect-free (pureprefix " + pre + ")")
+			return e.freshResult(st, sanitize(name), resType)
+		}
+	}
 	if e.cs.PurePkgs[pkgPath] {
 		st.note("call into package assumed effect-free (purepkg): " + pkgPath)
 		return e.freshResult(st, sanitize(name), resType)
 	}
+	e.havocAlive(st)
 	if first {
 		st.note("first-party call without contract: " + key + " (whole heap havocked)")
 		e.havocAllHeap(st)
@@ -833,6 +848,17 @@ func (e *Engine) evalLoc(env *Env, x ast.Expr) []Loc {
 		env.fail("assigns: %s is not a location", x.Name)
 	case *ast.CallExpr:
 		// reachable(v): the object a (possibly boxed) pointer argument points to
+		if id, ok := x.Fun.(*ast.Ident); ok && id.Name == "alloftype" && len(x.Args) == 1 {
+			t := e.resolveType(exprString(x.Args[0]), env.pkg)
+			if t == nil || !isStruct(t) {
+				env.fail("alloftype: cannot resolve struct type %s", exprString(x.Args[0]))
+			}
+			var locs []Loc
+			for _, l := range e.allLeaves("?", t) {
+				locs = append(locs, Loc{Heap: l.Heap, BaseFn: func(r string) string { return "true" }})
+			}
+			return locs
+		}
 		if id, ok := x.Fun.(*ast.Ident); ok && id.Name == "reachable" && len(x.Args) == 1 {
 			v := env.eval(x.Args[0])
 			if v.Box != nil {
